@@ -208,7 +208,9 @@ func judgeC05(hi *Hist) []*Violation {
 		}
 		// a bar queued behind another is no longer "waiting behind" it once that bar has left: it is
 		// due in the frame after the predecessor's last one
-		if bf.Queued {
+		if bf.Queued && !isCancelled {
+			// (with a cancellation the predecessor may be finished by it before the successor is
+			// created: that history is the open finding F4b and belongs to C17)
 			ppr := presence[bf.Pred]
 			if len(ppr) > 0 && ppr[len(ppr)-1] < len(frames)-1 {
 				L := ppr[len(ppr)-1]
